@@ -138,6 +138,7 @@ type Node struct {
 	Path  []int
 	Label string
 	Names []string
+	MakePos string
 	K     AKind
 	Zero  Value
 	Elem  []*Node
